@@ -118,6 +118,107 @@ def union(ctx, report, facts, config, rule="C07.UNION"):
                       "%s = %s(inner) + controller's declared %s" % (label, fab.name, meth), site=b.loc(), config=config)
 
 
+def _contains(t, x):
+    if t == x:
+        return True
+    if isinstance(t, tuple):
+        return any(_contains(a, x) for a in t if isinstance(a, tuple))
+    return False
+
+
+def _is_part_of(ev, t, x):
+    """`t` is x itself, a part of it or a view of either (not something computed from it)."""
+    t = Q.strip(ev, t)
+    if t == x:
+        return True
+    if isinstance(t, tuple) and t and t[0] == "agg":
+        return any(_is_part_of(ev, a, x) for a in t[3])     # the argument tuple of a closure call
+    if isinstance(t, tuple) and t and t[0] in ("field", "index", "variant", "proj", "cast"):
+        try:
+            f_, i_, base = Q.table_access(ev, t)
+        except Exception:
+            return _contains(t, x)
+        return Q.strip(ev, base) == x
+    return False
+
+
+def other_builders(ctx, report, facts, config, rule="C07.UNION"):
+    """Whatever else in the crate makes a batch system (calls BatchControllerSystem::create) owes the same as add_batch: the
+    accessor it hands over is new(fetch_all_reads(X) + the controller's declared reads, fetch_all_writes(X) + its declared
+    writes) for the very builder X whose build() result it hands over, and between reading X's tables and building it
+    nothing gets hold of X that could register more systems on it."""
+    far = facts.one(A.SB + "::fetch_all_reads")
+    faw = facts.one(A.SB + "::fetch_all_writes")
+    build = facts.one(A.DB + "::build")
+    create = facts.one(name="create", self_head=A.BCS, container="inherent")
+    addb = facts.one(A.DB + "::add")
+    newb = facts.one(name="new", self_head=A.BACC, container="inherent")
+    add_batch = facts.one(A.DB + "::add_batch")
+    roots = {}
+    for cb, bb in facts.callers().get(create.key, []):
+        r = facts.bodies.get(cb.root_key, cb) if cb.is_closure and cb.root_key else cb
+        if r.key != add_batch.key:
+            roots[r.key] = r
+    for r in sorted(roots.values(), key=lambda b: b.key):
+        report.touched(r, config)
+        ev, ends = Q.sem(ctx, facts, r, opaque=[far.key, faw.key, build.key, create.key, addb.key, newb.key])
+        rets = Q.returns(ends)
+        problems = []
+        if not rets:
+            problems.append("no way through returns")
+        for e in rets:
+            evs = e.path.events
+            calls = [x for x in evs if x[0] == "call"]
+            creates = [x for x in calls if x[2].key == create.key]
+            if not creates:
+                continue
+            if len(creates) != 1 or len(creates[0][3]) != 3:
+                problems.append("more than one batch system is made on one way through")
+                continue
+            acc, ctl, disp = [Q.strip(ev, a) for a in creates[0][3]]
+            bl = [x for x in calls if x[2].key == build.key and x[4] == disp]
+            nw = [x for x in calls if x[2].key == newb.key and x[4] == acc]
+            if len(bl) != 1 or len(nw) != 1 or len(bl[0][3]) != 1:
+                problems.append("the batch system is not made from BatchAccessor::new(..) and the result of a build()")
+                continue
+            X = Q.strip(ev, bl[0][3][0])
+            first_read = None
+            for label, t, fab, meth in (("reads", nw[0][3][0], far, "reads"), ("writes", nw[0][3][1], faw, "writes")):
+                base = Q.strip(ev, t)
+                c = Q.callee_of(ev, base)
+                if not (c is not None and c.key == fab.key and len(base[2]) == 1 and Q.strip(ev, base[2][0]) == ("field", X, "stages_builder", A.DB)):
+                    problems.append("the %s operand does not start from %s() of the builder that is built" % (label, fab.name))
+                    continue
+                pos = [i for i, x in enumerate(evs) if x[0] == "call" and x[4] == base]
+                if pos:
+                    first_read = pos[0] if first_read is None else min(first_read, pos[0])
+                good = 0
+                for k in contributions(ev, evs, base):
+                    if k[0] == "mut":
+                        problems.append("the %s operand is reshaped by `%s`" % (label, k[1]))
+                        continue
+                    v = Q.strip(ev, k[2], extra=("into_iter",))
+                    vc = Q.callee_of(ev, v)
+                    if k[0] == "add" and k[1] in ("extend", "append") and not k[3] and vc is not None and vc.trait == A.T_SYSDATA and vc.name == meth and "BatchSystemData" in (ev.self_arg(v) or ""):
+                        good += 1
+                    else:
+                        problems.append("the %s operand also receives %s" % (label, vc.short() if vc is not None else str(v)[:40]))
+                if good != 1:
+                    problems.append("the controller's declared %s are not added exactly once" % label)
+            if first_read is not None:
+                bpos = evs.index(bl[0])
+                for x in evs[first_read + 1:bpos]:
+                    if x[0] == "call" and x[2].key not in (far.key, faw.key) and any(_is_part_of(ev, a, X) for a in x[3]) and not (not x[2].local and x[2].name in Q.BENIGN_STD):
+                        problems.append("between reading its tables and building it, the inner builder is handed to `%s` (%s): what that registers is run by the batch but missing from its declared access" % (x[2].name, ev.loc(x[1])))
+                    elif x[0] == "store" and _contains(x[2], X) and not (x[2][0] == "field" and x[2][2] == "thread_pool"):
+                        problems.append("between reading its tables and building it, the inner builder is written to")
+                    elif x[0] == "loop" and any(_is_part_of(ev, a, X) for it in x[1].iters for y in Q.calls_in(it.path.events, lambda c: True, deep=True) for a in y[3]):
+                        problems.append("between reading its tables and building it, the inner builder is used inside a loop")
+        report.ob(rule, "%s/union" % r.qname, not problems, "; ".join(sorted(set(problems))) if problems else
+                  "a batch system made here declares fetch_all_reads/writes(inner) + the controller's own, of the builder it builds, read when nothing more can be registered", site=r.loc(), config=config)
+    report.ob(rule, "batch-makers", True, "BatchControllerSystem::create is called in add_batch and %d other function(s)" % len(roots), config=config)
+
+
 def assembly(ctx, report, facts, config, rule="C07.SAME"):
     """add_batch builds the very builder it was given - all its stages and thread-local systems - after reading its
     tables, hands the built dispatcher to BatchControllerSystem::create and registers the result through self.add."""
@@ -279,6 +380,7 @@ def run(ctx, report):
     for config in ctx.configs:
         facts = ctx.facts(config)
         report.guard("C07.UNION", union, ctx, report, facts, config)
+        report.guard("C07.UNION", other_builders, ctx, report, facts, config)
         report.guard("C07.SAME", assembly, ctx, report, facts, config)
         report.guard("C07.ALL", all_rule, ctx, report, facts, config)
         report.guard("C07.WIRE", wire, ctx, report, facts, config)
